@@ -230,6 +230,9 @@ func (e Engine) Generate(r *core.Rand, tier core.Tier) *core.Scenario {
 				if x.Share > 0 {
 					share = x.Share
 				}
+				if e.Prop == "C08" && share > 3 {
+					share = 3 // C08: the methods of the further applications get a larger part of the mix
+				}
 				if xr.Chance(1, share) {
 					op.Kind = x.Kinds[xr.Intn(len(x.Kinds))]
 					if x.WideArg {
